@@ -16,7 +16,7 @@ ASSUMPTIONS = ['dz >= 2^-20 (below float resolution of 3.0 the real loop cannot 
 
 
 def curve(rng, n):
-    kind = rng.choice(['steps', 'decay', 'plateaus', 'noisy', 'cliffs', 'grid', 'decimal'])
+    kind = rng.choice(['steps', 'decay', 'plateaus', 'noisy', 'cliffs', 'grid', 'decimal', 'bumps'])
     contiguous = rng.random() < 0.35        # x = 0..n-1: the point count is then one more than the largest x
     x = [0 if contiguous else rng.choice([0, 1])]
     for _ in range(n - 1):
@@ -27,6 +27,13 @@ def curve(rng, n):
         if kind == 'steps':
             if rng.random() < 0.25:
                 cur *= rng.choice([0.5, 0.75, 0.9])
+        elif kind == 'bumps':
+            # a decreasing staircase with transient bumps: accepted knees can come low, then high, then in between
+            r = rng.random()
+            if r < 0.3:
+                cur *= rng.choice([0.5, 0.7, 0.85])
+            elif r < 0.45:
+                cur = min(1.0, cur * rng.choice([1.25, 1.5, 2.0]))
         elif kind == 'decay':
             cur *= rng.choice([0.8, 0.9, 0.95, 0.97])
         elif kind == 'plateaus':
